@@ -163,6 +163,109 @@ theorem C44_policy {C : Crypto} {key : List UInt8} {cfg : Config} {rule : Option
 /-- The pre-fix behaviour, kept as a checked fact about the source: the version test is the equality test. -/
 theorem C44_fact_resume_same_version : resumeRequiresSameVersion = true := by decide
 
+/-! ## Session-ID cache, stored client certificates, key replacement -/
+
+/-- **Cache: what was stored is what is found, until it expires.**  After `Put` under (prefix, id) a `Get` of the same
+    (prefix, id) returns exactly the stored bytes while the expiry has not elapsed, and nothing afterwards. -/
+theorem C44_cache_get_put (c : List CacheEntry) (pfx id : String) (v : List UInt8) (now ttl now' : Nat) :
+    cacheGet (cachePut c pfx id v now ttl) pfx id now' = if now' < now + ttl then some v else none := by
+  unfold cacheGet cachePut
+  simp
+
+/-- **Cache isolation.**  A `Put` / deletion under another key (another session id, or another server's prefix)
+    does not change what a `Get` returns. -/
+theorem C44_cache_other_key (c : List CacheEntry) (pfx id pfx' id' : String) (v : List UInt8) (now ttl now' : Nat)
+    (h : cacheKey pfx' id' ≠ cacheKey pfx id) :
+    cacheGet (cachePut c pfx' id' v now ttl) pfx id now' = cacheGet c pfx id now' := by
+  unfold cacheGet cachePut
+  have h1 : (cacheKey pfx' id' == cacheKey pfx id) = false := beq_false_of_ne h
+  simp only [List.find?_cons, h1]
+  rw [List.find?_filter]
+  have hf : (fun e : CacheEntry => decide ((e.key != cacheKey pfx' id') = true ∧ (e.key == cacheKey pfx id) = true)) =
+      (fun e => e.key == cacheKey pfx id) := by
+    funext e
+    by_cases he : e.key = cacheKey pfx id
+    · simp [he, Ne.symm h]
+    · simp [he]
+  rw [hf]
+
+theorem find?_never {α : Type} (l : List α) : l.find? (fun _ => false) = none := by
+  induction l with
+  | nil => rfl
+  | cons a t ih => simp [List.find?_cons, ih]
+
+theorem C44_cache_deleted (c : List CacheEntry) (pfx id : String) (now : Nat) :
+    cacheGet (cacheDel c (cacheKey pfx id)) pfx id now = none := by
+  unfold cacheGet cacheDel
+  rw [List.find?_filter]
+  have hf : (fun e : CacheEntry => decide ((e.key != cacheKey pfx id) = true ∧ (e.key == cacheKey pfx id) = true)) =
+      (fun _ => false) := by
+    funext e
+    by_cases he : e.key = cacheKey pfx id <;> simp [he]
+  rw [hf, find?_never]
+
+/-- **Stored client certificates are judged again, now.**  When a session that carries client certificates is resumed,
+    `doResumeHandshake` succeeds only if the stored chain parses, is not revoked and has a usable key; and under a
+    verifying policy (VerifyClientCertIfGiven, RequireAndVerifyClientCert — which a rule's ClientAuth forces) only if
+    the chain verifies against the CA pool of the CURRENT connection and lists the ClientAuth usage.  A CA change
+    between issue and resume therefore ends the resumed handshake with bad_certificate. -/
+theorem C44_resume_reverifies {policy : Nat} {c : StoredCert} {v : Bool}
+    (h : resumeCertStep policy (some c) = .ok v) :
+    c.parses = true ∧ c.revoked = false ∧ c.keyOk = true ∧
+    (verifyClientCertIfGiven ≤ policy → c.chainOk = true ∧ c.ekuListed = true ∧ v = true) := by
+  unfold resumeCertStep at h
+  simp only at h
+  split at h; · cases h
+  rename_i h1
+  split at h; · cases h
+  rename_i h2
+  split at h; · cases h
+  rename_i h3
+  split at h; · cases h
+  rename_i h4
+  split at h; · cases h
+  rename_i h5
+  cases h
+  refine ⟨by simpa using h1, by simpa using h2, by simpa using h5, ?_⟩
+  intro hp
+  have hd : decide (policy ≥ verifyClientCertIfGiven) = true := by simpa using hp
+  refine ⟨?_, ?_, hd⟩
+  · cases hco : c.chainOk with
+    | true => rfl
+    | false => exact absurd (by simp [hd, hco]) h3
+  · cases hco : c.ekuListed with
+    | true => rfl
+    | false => exact absurd (by simp [hd, hco]) h4
+
+/-- **One key; replacing it retires every ticket.**  A server accepts a ticket only if it is byte-for-byte one it
+    sealed under its CURRENT key (ideal-MAC hypothesis, as in `C44_authentic`) … -/
+theorem C44_rotation {C : Crypto} (hl : Laws C) (srv : TicketServer)
+    (hissued : ∀ p ∈ srv.issued, WF p.1 ∧ p.2.length = 16)
+    (t : List UInt8) (hunf : Unforgeable C srv.key srv.issued t) {s : SessionState}
+    (hd : srv.accept C t = some s) : ∃ p ∈ srv.issued, t = encryptTicket C srv.key p.2 p.1 ∧ s = p.1 :=
+  C44_authentic hl srv.key srv.issued hissued t hunf hd
+
+/-- … so right after `UpdateSessionTicketKey` (nothing sealed under the new key yet) every presented ticket — in
+    particular every ticket of the previous key — is refused: bfe has no list of old keys that are still accepted. -/
+theorem C44_rotation_refuses_old (C : Crypto) (srv : TicketServer) (newKey t : List UInt8)
+    (hunf : Unforgeable C newKey [] t) : (srv.rotate newKey).accept C t = none := by
+  unfold TicketServer.accept TicketServer.rotate
+  cases hmv : macValid C newKey t with
+  | false => exact C44_mac_first C newKey t hmv
+  | true =>
+    obtain ⟨p, hp, _⟩ := hunf hmv
+    cases hp
+
+/-- issuing records the ticket: a freshly issued ticket is accepted by the same server (until the key is replaced) -/
+theorem C44_issue_then_accept {C : Crypto} (hl : Laws C) (srv : TicketServer) (s : SessionState) (iv : List UInt8)
+    (hiv : iv.length = 16) (hs : WF s) : ((srv.issue C s iv).1).accept C (srv.issue C s iv).2 = some s := by
+  unfold TicketServer.issue TicketServer.accept
+  exact decrypt_encrypt hl srv.key iv s hiv hs
+
+example : resumeCertStep 4 (some ⟨true, false, false, true, true⟩) = .error 42 := rfl
+example : resumeCertStep 4 (some ⟨true, false, true, true, true⟩) = .ok true := rfl
+example : resumeCertStep 2 (some ⟨true, false, false, true, true⟩) = .ok false := rfl
+
 /-! Non-vacuity: a concrete history that resumes, and the forms of refusal. -/
 def xorC (ks : List UInt8) : Crypto :=
   { ctr := fun _ _ d => (d.zip (ks ++ List.replicate d.length 0)).map fun p => p.1 ^^^ p.2,
